@@ -19,6 +19,10 @@ on call "github.com/mitchellh/hashstructure/v2.Hash"(v, format, opts) in ConfigM
    assert[C16,C08] @external_labels_do_not_enter_the_hash len(info.Config.GlobalConfig.ExternalLabels) == 0
    do gHashed = info.Config
 
+// ... nor the marshalled text that is hashed with it (relabel regular expressions are only visible there)
+on call "gopkg.in/yaml.v2.Marshal"(in) in ConfigManager.ReloadFromRaw
+   assert[C16,C08] @external_labels_do_not_enter_the_hashed_text len(info.Config.GlobalConfig.ExternalLabels) == 0
+
 contract github.com/prometheus/prometheus/config.Load
   ensures result1 == nil ==> result0 != nil && fresh(result0)
   modifies github.com/prometheus/prometheus/config.Config.* at {}
